@@ -19,12 +19,19 @@ def srcHolds (e : ConvEntry) (x : Int) : Bool :=
   | some lo, some hi => decide (lo ≤ x ∧ x ≤ hi)
   | _, _ => false
 
+/-- rows beyond the modelled table are impls without a model (`Gen.unmodelledConversions`): what is expected of them is
+    the specification itself -/
 def modelConv (row : Nat) (x : Int) : Option Obs :=
   match Gen.conversions[row]? with
   | some e => if srcHolds e x then some (convCells (convModel platformPw e x)) else none
-  | none => none
+  | none =>
+    match Gen.unmodelledConversions[row - Gen.conversions.length]? with
+    | some e => if srcHolds e x then some (convCells (convSpec platformPw e x)) else none
+    | none => none
 def specConv (row : Nat) (x : Int) : Option Obs :=
-  (Gen.conversions[row]?).map (fun e => convCells (convSpec platformPw e x))
+  match Gen.conversions[row]? with
+  | some e => some (convCells (convSpec platformPw e x))
+  | none => (Gen.unmodelledConversions[row - Gen.conversions.length]?).map (fun e => convCells (convSpec platformPw e x))
 
 def configOfName (s : String) : Config :=
   match s with
